@@ -96,6 +96,9 @@ func (s *Solver) Check(extra *Term) string {
 		s.send("(pop)")
 	}
 	s.Time += time.Since(t0)
+	if r != "sat" && r != "unsat" && r != "unknown" {
+		panic("solver protocol: unexpected answer to check-sat: " + r)
+	}
 	return r
 }
 
@@ -113,12 +116,25 @@ func (s *Solver) Eval(extra *Term, t *Term) (uint64, bool) {
 	r := s.readLine()
 	ok := false
 	var v uint64
+	if r != "sat" && r != "unsat" && r != "unknown" {
+		panic("solver protocol: unexpected answer to check-sat: " + r)
+	}
 	if r == "sat" {
 		s.send("(get-value (" + t.String() + "))")
-		l := s.readLine()
-		// ((term #x..))
+		// the answer may be pretty-printed over several lines: read until parentheses balance
+		depth, l := 0, ""
+		for {
+			ln := s.readLine()
+			l += ln + " "
+			depth += strings.Count(ln, "(") - strings.Count(ln, ")")
+			if depth <= 0 {
+				break
+			}
+		}
+		l = strings.TrimSpace(l)
+		// ((term value)) : the value is the last token
 		i := strings.LastIndex(l, "#")
-		if i >= 0 {
+		if i >= 0 && !strings.ContainsAny(l[i:], " (") {
 			tok := strings.TrimRight(l[i:], ")")
 			if tok[1] == 'x' {
 				fmt.Sscanf(tok[2:], "%x", &v)
@@ -126,10 +142,12 @@ func (s *Solver) Eval(extra *Term, t *Term) (uint64, bool) {
 				fmt.Sscanf(tok[2:], "%b", &v)
 			}
 			ok = true
-		} else if strings.Contains(l, "true") {
+		} else if strings.HasSuffix(l, " true))") {
 			v, ok = 1, true
-		} else if strings.Contains(l, "false") {
+		} else if strings.HasSuffix(l, " false))") {
 			v, ok = 0, true
+		} else {
+			panic("solver protocol: cannot parse get-value answer: " + l)
 		}
 	}
 	if extra != nil {
@@ -153,6 +171,9 @@ func (s *Solver) Model(extra *Term, vars []*Term) ([]uint64, bool) {
 	t0 := time.Now()
 	s.send("(check-sat)")
 	r := s.readLine()
+	if r != "sat" && r != "unsat" && r != "unknown" {
+		panic("solver protocol: unexpected answer to check-sat: " + r)
+	}
 	var out []uint64
 	ok := r == "sat"
 	if ok && len(vars) > 0 {
